@@ -34,7 +34,8 @@ def content(n, salt=0):
 
 def rich_child(seq, alg):
     """a child with a severed member whose (wrong) supplied digest must be refreshed before the child is hashed."""
-    c = gen.child_env(seq=seq, alg=alg, extra={"suit-integrated-payloads": {"#p": "0102"},
+    # two payloads NOT in sorted order, listed before the severed member (member order is the description's)
+    c = gen.child_env(seq=seq, alg=alg, extra={"suit-integrated-payloads": {"#radio.bin": "0102", "#app.bin": "030405"},
                                                "suit-payload-fetch": [{"suit-directive-fetch": [gen.BITS[1]]}]})
     c["SUIT_Envelope_Tagged"]["suit-manifest"]["suit-payload-fetch"] = gen.digest("cose-alg-sha-512", "00" * 64)
     c["SUIT_Envelope_Tagged"]["suit-authentication-wrapper"]["SuitDigest"]["suit-digest-bytes"] = "11" * 8
@@ -117,7 +118,8 @@ def run_file(case, agg):
         old = os.getcwd()
         os.chdir(root)
         try:
-            child_bytes = impl.tool_create(child)
+            # the dependency "created on its own" - through the command (file writer) on a rotating slice, else the library
+            child_bytes = impl.tool_create_main(copy.deepcopy(child), root, "json") if case["i"] % 3 == 0 else impl.tool_create(child)
             if recode:
                 child_bytes = noncanon(child_bytes, recode)
             want = None
@@ -243,7 +245,7 @@ def run_hier(case, agg):
     with fresh_dir("c05h") as root:
         try:
             grand = rich_child(30, galg)
-            grand_bytes = impl.tool_create(grand)
+            grand_bytes = impl.tool_create_main(copy.deepcopy(grand), root, "yaml")     # created on its own by the command
             gpath = os.path.join(root, "grand.suit")
             open(gpath, "wb").write(grand_bytes)
             gref = copy.deepcopy(grand) if d_form == "inline" else gpath
@@ -251,7 +253,7 @@ def run_hier(case, agg):
             child["SUIT_Envelope_Tagged"]["suit-manifest"]["suit-install"] = [{"suit-directive-override-parameters": {
                 "suit-parameter-uri": "#grand", "suit-parameter-image-digest": gen.digest(palg, {"envelope": gref})}}]
             child["SUIT_Envelope_Tagged"]["suit-integrated-dependencies"] = {"#grand": copy.deepcopy(grand) if g_form == "inline" else gpath}
-            child_bytes = impl.tool_create(child)
+            child_bytes = impl.tool_create_main(copy.deepcopy(child), root, "json") if case["palg"] % 2 else impl.tool_create(child)
             cpath = os.path.join(root, "child.suit")
             open(cpath, "wb").write(child_bytes)
             cref = copy.deepcopy(child) if d_form == "inline" else cpath
